@@ -75,9 +75,12 @@ def explore(fn, timeout=120.0, max_viol=3, max_paths=10 ** 9):
                     a = {'<unrealizable>': repr(e)}
                 tb = ''
                 if exc is not None:
-                    tb = ''.join(traceback.format_exception_only(type(exc), exc)).strip()
-                    if stack:
-                        tb = tb + ' @ ' + str(stack).strip().splitlines()[-1][:300] if str(stack).strip() else tb
+                    tb = f'{type(exc).__name__}: {exc}'[:400]
+                    try:
+                        fs = list(stack)[-1]
+                        tb += f' @ {fs.filename}:{fs.lineno} in {fs.name}'
+                    except Exception:  # noqa
+                        pass
                 st['violations'].append({'args': a, 'ret': None if exc is not None else r, 'exc': tb or None})
                 return len(st['violations']) >= max_viol
             return False
@@ -100,3 +103,13 @@ def explore(fn, timeout=120.0, max_viol=3, max_paths=10 ** 9):
     else:
         st['verdict'] = 'inconclusive'
     return st
+
+
+def choose(idx, seq):
+    """pick seq[idx] by forking on a symbolic index; every out-of-range value is clamped to the last element, so no
+    attempt is wasted on an IgnoreAttempt"""
+    seq = list(seq)
+    for i, v in enumerate(seq[:-1]):
+        if idx == i:
+            return v
+    return seq[-1]
